@@ -388,6 +388,27 @@ pub fn run(ctx: &mut Ctx) {
                     fill(&mut rng, &mut store, &docs[t], n);
                     expect_changed = Some(t);
                     trace.push(format!("write to doc{t}"));
+                    // One write in three is followed by an entry from a hostile writer of this document
+                    // (added after seeded change agent-C16-10): it arrives for doc t, is signed with doc
+                    // t's key, and names ANOTHER document of the store - a live one or a removed one.
+                    // Whatever doc t makes of it, the document it names is not touched by it.
+                    if let (Doc::Write(secret), true) = (&docs[t], rng.chance(1, 3)) {
+                        let u = (t + 1 + rng.below(ids.len() - 1)) % ids.len();
+                        let author = crate::gen::author(rng.below(3) as u8);
+                        let (h, l) = crate::gen::content(rng.below(4));
+                        let honest = iroh_docs::SignedEntry::from_parts(secret, &author, &rng.bytes(2), iroh_docs::Record::new(h, l, crate::gen::t0() + 50));
+                        let mut raw = crate::wire::RawEntry::of(&honest);
+                        raw.id[..32].copy_from_slice(ids[u].as_bytes());
+                        raw.sign(secret, &author);
+                        if let Ok(forged) = raw.into_entry() {
+                            if let Ok(mut r) = store.open_replica(&ids[t]) {
+                                let res = crate::util::block_on(r.insert_remote_entry(forged, [7u8; 32], iroh_docs::ContentStatus::Complete));
+                                trace.push(format!("entry naming doc{u} (present: {}), signed with the key of doc{t}, arrives for doc{t} -> {}", present[u], res.is_ok()));
+                                ctx.count("entries_naming_another_document_under_this_documents_key", 1);
+                            }
+                            store.close_replica(ids[t]);
+                        }
+                    }
                 }
                 _ => continue,
             }
